@@ -69,6 +69,10 @@ CLAIMS = {
    text="Generated schedules over up to 4 connections (REQ, replacing REQ, CLOSE, valid/invalid/duplicate/ephemeral EVENT, disconnect) interleaved with harness-owned scheduling (recv latency, parked/released validator jobs, k applied LMDB writes, yields, settles); every frame is stamped with the operation index at which it appeared; per (connection, sub id, event) a MUST lower bound (instance certainly open over the whole accept interval and must-matching) and an AT-MOST upper bound derived from open/closed/overlap windows; refused events reach nobody; live==stored agreement for instances open at the end.",
    note="LMDB fully deterministic (no threads); SQL keeps aiosqlite threads so only message-level interleavings are owned; boundary (since/until) and ephemeral cases are MAY.",
    tech="property-based testing: schedule generation with a window-based MUST/AT-MOST oracle (happens-before over observed frames)"),
+ "C07": dict(cat="fault_enumeration",
+   text="For Hypothesis-drawn histories of multi-effect events (parameterized-replaceable supersession with several indexed tags, kind 0/3, kind-5 deleting several events) EVERY (event, k-th storage mutation) point is faulted on both backends: an injected engine error (SQL: OperationalError from a before_cursor_execute listener; LMDB: lmdb.Error from the engine model) must leave exactly the pre-state, a negative answer and no broadcast (SQL), and the remaining events must then produce the dumps of the history without the failed event; a kill (BaseException out of the writer + reopen for LMDB; engine dropped + file reopened with sqlite3 for SQL; real child processes killed with os._exit on a WAL file for a stratified sample / all points) must leave the pre- or post-state, compared below the relay (events + tag rows / whole keyspace).",
+   note="LMDB commit atomicity is assumed (engine modelled): the LMDB verdict is 'all effects of one event are inside one write transaction'. SQLite is exercised for real. PostgreSQL not exercised.",
+   tech="fault injection enumerated over every mutation point of generated histories (property-based histories + exhaustive crash points) with before/after raw-dump oracle"),
 }
 NA_REASON = "check under construction in this session; will be claimed when it is quiet and sensitive"
 
